@@ -504,6 +504,8 @@ theorem rerunIn_specM : ∀ (v : View) (t : RState), GoodM P0 Q0 v t → v.wf K 
     | _ => simp only [GoodM] at hg
   | scope sid d kid _ => intro t _ _ hc; simp [View.coreS] at hc
   | forRows en sel lists row _ => intro t _ _ hc; simp [View.coreS] at hc
+  | eb kid _ => intro t _ _ hc; simp [View.coreS] at hc
+  | res c x => intro t _ _ hc; simp [View.coreS] at hc
   | forKeyed sel lists =>
     intro t hg hw _ hnd
     cases t with
